@@ -90,6 +90,8 @@ var sandwiches = [][2]string{
 	{"#", "\n$b = 1;\n$c"},
 	{"$a = 1;", "\n$b = 1;\n$c"},
 	{"$a = \"x{$", "}\";\n$b = 1;\n$c"},
+	{"#!/usr/bin/env origami\n", "\n$b = 1;\n$c"},
+	{"#!/x", "\n<?php\n$b = 1;\n$c"},
 }
 
 func H_lex_spans_mid() {
